@@ -155,7 +155,8 @@ def option_set(rng, idx):
     opts['dups'] = rng.random() < 0.3
     opts['boot'] = rng.random() < 0.2
     opts['symlinks'] = rng.random() < 0.6
-    opts['hide'] = rng.random() < 0.15
+    opts['hide'] = rng.random() < 0.2
+    opts['nobak'] = rng.random() < 0.15
     opts['deep'] = bool(opts['rock']) and opts['level'] < 4 and rng.random() < 0.25
     return opts
 
@@ -174,6 +175,16 @@ def one_case(cs, idx, counters):
             with open(os.path.join(src, 'bootimg.bin'), 'wb') as f:
                 f.write(random.Random(3).randbytes(2048))
             desc['bootimg.bin'] = ('file', random.Random(3).randbytes(2048))
+            if rng.random() < 0.6:
+                # ordinary files that look like the boot catalog / boot image: same name in another
+                # directory, same size (one sector)
+                os.makedirs(os.path.join(src, 'backup'), exist_ok=True)
+                desc.setdefault('backup', ('dir', None))
+                for nm, sd_ in (('backup/boot.cat', 41), ('backup/bootimg.bin', 42)):
+                    data_ = random.Random(sd_).randbytes(2048)
+                    with open(os.path.join(src, nm), 'wb') as f:
+                        f.write(data_)
+                    desc[nm] = ('file', data_)
         iso = os.path.join(tmp, 'out.iso')
         cmd = [GENISO, '-quiet', '-o', iso, '-iso-level', str(opts['level'])]
         if opts['rock']:
@@ -186,12 +197,19 @@ def one_case(cs, idx, counters):
             cmd.append('-scan-for-duplicates')
         if opts['boot']:
             cmd += ['-b', 'bootimg.bin', '-c', 'boot.cat', '-no-emul-boot', '-boot-load-size', '4']
-        hidden_name = None
+        hidden_names = []
         if opts['hide']:
             files = [r for r, (k, _) in desc.items() if k == 'file' and '/' not in r and r != 'bootimg.bin']
             if files:
-                hidden_name = files[0]
-                cmd += ['-exclude', hidden_name]
+                # several patterns through the different spellings of the option: each one counts
+                hidden_names = files[:rng.choice([1, 2, 3])]
+                for j, hn in enumerate(hidden_names):
+                    cmd += [['-exclude', '-m', '-x'][j % 3], hn]
+        if opts.get('nobak'):
+            for rel, data in (('old.bak', b'backup\n'), ('note~', b'tilde\n'), ('x#y', b'hash\n')):
+                with open(os.path.join(src, rel), 'wb') as f:
+                    f.write(data)
+            cmd.append('-nobak')
         cmd.append(src)
         rc, out, err = run_tool(cmd, counters)
         optkey = 'L%d%s%s%s' % (opts['level'], opts['rock'] or '', 'J' if opts['joliet'] else '', 'U' if opts['udf'] else '')
@@ -203,7 +221,7 @@ def one_case(cs, idx, counters):
             vio.append({'key': 'genisoimage-fails:%s' % cls, 'detail': '%s: %s' % (optkey, last[:200])})
             return vio, opts, desc
         # -exclude matches the base name at every level
-        expected = {r: v for r, v in desc.items() if hidden_name is None or r.rsplit('/', 1)[-1] != hidden_name}
+        expected = {r: v for r, v in desc.items() if r.rsplit('/', 1)[-1] not in hidden_names}
         data = open(iso, 'rb').read()
         dec = ecma119.decode(data)
         # extensions exactly as requested
@@ -229,8 +247,8 @@ def one_case(cs, idx, counters):
         datas = {}
         for p, n in iso_files.items():
             ident = p.rsplit('/', 1)[1]
-            if ident.upper().startswith('BOOT.CAT'):
-                continue
+            if ident.upper().startswith('BOOT.CAT') and p.count('/') == 1 and opts['boot']:
+                continue    # the boot catalog itself (root directory), not a source file
             ok = c18.legal_file(ident, opts['level'])
             if ok is not True and ok is not None:
                 vio.append({'key': 'iso-ident:illegal:%s' % ok, 'detail': '%s: %r' % (optkey, p)})
